@@ -231,16 +231,17 @@ def replay_login_live(label):
     bad = None
     if k != 'ok':
         bad = '%s %r' % (k, v)
-    elif len(sent) != 2:
+    elif not 1 <= len(sent) <= 2:
         bad = '%d sends for the response' % len(sent)
     else:
         from minecraft.networking.packets import PacketBuffer
         from minecraft.networking.types import VarInt
         try:
             buf = PacketBuffer()
-            buf.send(sent[1])
+            buf.send(b''.join(sent))             # the frame, in however many sends it went out
             buf.reset_cursor()
-            VarInt.read(buf)
+            VarInt.read(buf)                     # frame length
+            VarInt.read(buf)                     # packet id
             resp = serverbound.login.EncryptionResponsePacket(conn.context)
             resp.read(buf)
             secret = key.decrypt(resp.shared_secret, asym_padding.PKCS1v15())
